@@ -23,12 +23,15 @@ ASSUMPTIONS = [
 ]
 
 # design = (common terms, group terms); a term is a list of atoms; group term = (effect terms incl. "1", zero?, factor atoms)
-VAR = {"f": "f", "g": "g", "h": "h", "x": "x", "C(k)": "k", "T(f, 'fb')": "f", "S(f)": "f", "C(f, Sum)": "f", "f2": "f2"}
+VAR = {"f": "f", "g": "g", "h": "h", "x": "x", "C(k)": "k", "T(f, 'fb')": "f", "S(f)": "f", "C(f, Sum)": "f", "f2": "f2",
+       "C(f, levels=flv)": "f", "T(f, levels=flv)": "f", "S(f, levels=flv)": "f", "C(g, levels=glv)": "g", "C(k, levels=klv)": "k"}
+flv, glv, klv = ["fc", "fa", "fb"], ["g2", "g1"], [10, -2, 9]  # explicit level orders the formulas refer to (caller globals)
 CATVARS = {"f", "g", "h", "k", "f2"}
 DESIGNS = [
     "y ~ f", "y ~ 0 + f", "y ~ f:g", "y ~ f + g + f:g", "y ~ f:x", "y ~ x + f:x", "y ~ C(k)", "y ~ 0 + C(k):f",
     "y ~ T(f, 'fb')", "y ~ S(f)", "y ~ 0 + S(f)", "y ~ C(f, Sum):g", "y ~ f*g*x", "y ~ f + (1|g)",
     "y ~ (1|g)", "y ~ x + (x|g)", "y ~ (f|g)", "y ~ (0 + f|g)", "y ~ (x|g) + (x|h)", "y ~ (x|g:h)", "y ~ (x|C(k))",
+    "y ~ C(f, levels=flv)", "y ~ 0 + T(f, levels=flv):g", "y ~ S(f, levels=flv) + x", "y ~ (x|C(g, levels=glv))", "y ~ (0 + C(f, levels=flv)|h)", "y ~ C(k, levels=klv)",
     "y ~ (x|h) + (1|g)", "y ~ (0 + x|g) + (f|h)", "y ~ f + (f:x|g)", "y ~ (1|g/h)", "y ~ (0 + f:f2|g)", "y ~ (S(f)|g)",
 ]
 MODES = ["error", "warning", "silent"]
@@ -131,7 +134,7 @@ def placements(vars_, tier="quick"):
 IDX = [7, 2, 5, 11]
 
 
-def make_frames(pl, reindex=False, catdtype=False):
+def make_frames(pl, reindex=False, catdtype=False, kstr=False):
     nd = base_rows().copy()
     if reindex:  # new data that was filtered / sorted: labels are not 0..n-1
         nd.index = IDX[: len(nd)]
@@ -139,8 +142,8 @@ def make_frames(pl, reindex=False, catdtype=False):
     for v, rows in pl.items():
         col = nd[v].astype(object).copy()
         for i in rows:
-            col.iloc[i] = unseen_value(v, i)
-        nd[v] = col if v != "k" else col.astype(int)
+            col.iloc[i] = unseen_value(v, i) if not (kstr and v == "k") else f"other{i}"
+        nd[v] = col if (v != "k" or kstr) else col.astype(int)  # kstr: an object column mixing the integer ids with a text value
     if catdtype:  # the new data stores its factors as pandas categoricals (categories: training levels + the unseen values)
         for v in pl:
             cats = list(dict.fromkeys(sorted(set(train()[v])) + list(nd[v])))
@@ -220,8 +223,8 @@ def check_placement(case, acc):
     used = sorted(atoms_of(d.split("~")[1]) & CATVARS)
     problems = {}
     n = 0
-    for pl, reindex, catd in [(p_, r_, c_) for p_ in placements(used) for r_, c_ in ((False, False), (True, False), (False, True))]:
-        nd, clean = make_frames(pl, reindex, catd)
+    for pl, reindex, catd, kstr in [(p_, r_, c_, k_) for p_ in placements(used) for r_, c_, k_ in ((False, False, False), (True, False, False), (False, True, False), (False, False, True)) if not k_ or "k" in p_]:
+        nd, clean = make_frames(pl, reindex, catd, kstr)
         common_vars = set()
         if dm.common is not None:
             for name in dm.common.terms:
@@ -242,7 +245,7 @@ def check_placement(case, acc):
                 out, exc, ours = run_eval(dm.common, nd)
                 acc.calls += 2
                 acc.traces += 1
-                tag = f"{d!r} mode={mode} unseen={pl}" + (" (frame index " + str(IDX[: len(nd)]) + ")" if reindex else "") + (" (categorical dtype)" if catd else "")
+                tag = f"{d!r} mode={mode} unseen={pl}" + (" (frame index " + str(IDX[: len(nd)]) + ")" if reindex else "") + (" (categorical dtype)" if catd else "") + (" (object column: integer ids and a text value)" if kstr else "")
                 if mode == "error" and hit:
                     if exc is None:
                         problems.setdefault(("error-raises", "no-exception"), f"{tag}: common evaluation did not raise")
